@@ -42,7 +42,7 @@ pub fn show_entries(es: &[WalEntry]) -> String {
     s
 }
 
-pub type Image = Vec<(u64, Vec<u8>)>;
+pub type Image = Vec<(String, Vec<u8>)>;
 
 /// boundary values of an unsigned little-endian field of `width` bytes: 0, 1, max-15..=max,
 /// 2^31 +- 1, 2^32 - 1, 2^32 (+1), 2^63 +- 1 (as far as they fit) plus `extra`
@@ -93,46 +93,45 @@ pub fn overwrite(b: &[u8], pos: usize, v: &[u8]) -> Vec<u8> {
     o
 }
 
+/// the whole directory as `list()` presents it: every name (foreign ones too), sorted by name
 pub fn image_of(store: &InMemoryWalStore) -> Image {
-    let mut v: Image = store
-        .list()
-        .unwrap()
-        .iter()
-        .filter_map(|n| parse_seq(n).map(|s| (s, store.get_file_data(n).unwrap())))
-        .collect();
-    v.sort();
-    v
+    store.list().unwrap().iter().map(|n| (n.clone(), store.get_file_data(n).unwrap())).collect()
 }
 
 pub fn show_image(img: &Image) -> String {
     let mut s = img.len().to_string();
-    for (q, b) in img {
-        s.push_str(&format!(" {} {}", q, hex(b)));
+    for (n, b) in img {
+        s.push_str(&format!(" {} {}", hex(n.as_bytes()), hex(b)));
     }
     s
+}
+
+/// the WAL files of a directory in RECOVERY order (parsed sequence, ties in listing order):
+/// (rank, listing index, name, contents)
+pub fn wal_files(img: &Image) -> Vec<(u64, usize, String, Vec<u8>)> {
+    let mut v: Vec<(u64, usize)> = img.iter().enumerate().filter_map(|(i, (n, _))| parse_seq(n).map(|s| (s, i))).collect();
+    v.sort();
+    v.into_iter().enumerate().map(|(r, (_, i))| (r as u64, i, img[i].0.clone(), img[i].1.clone())).collect()
 }
 
 fn same(a: &WalEntry, b: &WalEntry) -> bool {
     a.timestamp == b.timestamp && a.checksum == b.checksum && a.data == b.data
 }
 
-/// a store holding exactly `img` (fresh, nothing shared)
-#[allow(dead_code)]
-pub fn store_of(img: &Image) -> InMemoryWalStore {
-    let st = InMemoryWalStore::new();
-    for (q, b) in img {
-        let mut w = st.create(&wal_name(*q)).unwrap();
-        if !b.is_empty() {
-            w.append(b).unwrap();
-        }
-    }
-    st
+/// a file that is in the directory before the rotator under test is created
+#[derive(Clone)]
+struct PreFile {
+    name: String,
+    bytes: Vec<u8>,
+    /// what a WAL reader is expected to find in it (for names that parse as WAL files)
+    entries: Vec<WalEntry>,
 }
 
 struct Case {
     max: usize,
     entries: Vec<WalEntry>,
     all_deltas: bool,
+    pre: Vec<PreFile>,
 }
 
 fn small_delta(rng: &mut Rng) -> ReplicationDelta {
@@ -144,6 +143,91 @@ fn small_delta(rng: &mut Rng) -> ReplicationDelta {
         m = c07::random_value(rng);
     }
     ReplicationDelta::new(key, m.to_real(), ReplicaId::new(rng.range(1, 3)))
+}
+
+/// a well-formed WAL file image of the current format
+fn wal_image(seq: u64, entries: &[WalEntry]) -> Vec<u8> {
+    let mut b = b"RWAL".to_vec();
+    b.extend_from_slice(&[crate::cfg::CODE_WAL_FORMAT, 0, 0, 0]);
+    b.extend_from_slice(&seq.to_le_bytes());
+    for e in entries {
+        b.extend_from_slice(&e.encode());
+    }
+    b
+}
+
+fn raw_entry(rng: &mut Rng) -> WalEntry {
+    let ts = *rng.pick(&[0u64, 1, 3, 5, 9]);
+    let data: Vec<u8> = (0..rng.range(1, 12)).map(|_| rng.below(256) as u8).collect();
+    let checksum = crate::cfg::entry_checksum(ts, &data);
+    WalEntry { data, timestamp: ts, checksum }
+}
+
+const FOREIGN_NAMES: [&str; 13] = [
+    "aaa", "zzz", "", "wal-manifest.json", "wal-zzzzzzzz.wal", "wal-0000000g.wal", "wal-00000001.wal.tmp", "wal-", ".wal", "wal-.wal",
+    "wal-10000000000000000.wal", "wal--1.wal", "WAL-00000001.WAL",
+];
+
+/// directory contents before the rotator under test exists: WAL files at boundary sequence numbers
+/// (so that `WalRotator::new` continues from there, across the name-width change at 2^32), names
+/// that parse to a sequence without being the canonical name, and foreign files
+fn gen_pre(rng: &mut Rng, out: &mut Out) -> Vec<PreFile> {
+    let mut pre: Vec<PreFile> = Vec::new();
+    if rng.chance(9, 20) {
+        return pre;
+    }
+    if rng.chance(3, 5) {
+        let s0 = match rng.below(12) {
+            0 => 0,
+            1 => 1,
+            2 => 0xffff_fffe,
+            3 | 4 => 0xffff_ffff,
+            5 => 0x1_0000_0000,
+            6 => u64::MAX - 1,
+            7 => {
+                if rng.chance(1, 3) {
+                    u64::MAX
+                } else {
+                    u64::MAX - 2
+                }
+            }
+            8 => 0xffff_fff0 + rng.below(32),
+            _ => rng.range(2, 20),
+        };
+        let es: Vec<WalEntry> = (0..rng.below(3)).map(|_| raw_entry(rng)).collect();
+        pre.push(PreFile { name: wal_name(s0), bytes: wal_image(s0, &es), entries: es });
+        if s0 > 3 && rng.chance(1, 3) {
+            let s1 = s0 - rng.range(1, 3);
+            let es: Vec<WalEntry> = (0..rng.below(3)).map(|_| raw_entry(rng)).collect();
+            pre.push(PreFile { name: wal_name(s1), bytes: wal_image(s1, &es), entries: es });
+        }
+        out.count("gen:pre-existing-wal-file");
+    }
+    if rng.chance(1, 8) {
+        // a name that parses to a sequence but is not what wal_file_name would produce
+        let (name, q) = *rng.pick(&[("wal-0000000A.wal", 10u64), ("wal-+3.wal", 3), ("wal-7.wal", 7), ("wal-00000000000000002.wal", 2)]);
+        let es: Vec<WalEntry> = (0..rng.below(3)).map(|_| raw_entry(rng)).collect();
+        pre.push(PreFile { name: name.to_string(), bytes: wal_image(q, &es), entries: es });
+        out.count("gen:alias-name");
+    }
+    for _ in 0..rng.below(3) {
+        let name = rng.pick(&FOREIGN_NAMES).to_string();
+        if pre.iter().any(|f| f.name == name) {
+            continue;
+        }
+        let bytes = match rng.below(3) {
+            0 => vec![],
+            1 => (0..rng.range(1, 40)).map(|_| rng.below(256) as u8).collect(),
+            _ => {
+                // a foreign name holding a perfectly valid WAL image (a backup copy, a temp file)
+                let es: Vec<WalEntry> = (0..rng.below(3)).map(|_| raw_entry(rng)).collect();
+                wal_image(1, &es)
+            }
+        };
+        pre.push(PreFile { name, bytes, entries: vec![] });
+        out.count("gen:foreign-file");
+    }
+    pre
 }
 
 fn gen_case(rng: &mut Rng, out: &mut Out) -> Case {
@@ -182,18 +266,36 @@ fn gen_case(rng: &mut Rng, out: &mut Out) -> Case {
         4 => 16 + sizes.iter().take(2).sum::<usize>() + 1,
         _ => rng.range(17, 200) as usize,
     };
-    Case { max, entries, all_deltas }
+    let pre = gen_pre(rng, out);
+    Case { max, entries, all_deltas, pre }
 }
 
-/// the real rotator driven over a fresh store; returns (store, rotator, file of each entry)
-fn build(c: &Case) -> (InMemoryWalStore, WalRotator<InMemoryWalStore>, Vec<u64>) {
+/// the real rotator (a NEW one: `WalRotator::new` scans the directory) driven over the
+/// pre-populated store; returns (store, rotator, name of the file of each entry) or `None` when the
+/// rotator panicked
+fn build(c: &Case) -> (InMemoryWalStore, Option<WalRotator<InMemoryWalStore>>, Vec<String>) {
     let store = InMemoryWalStore::new();
-    let mut rot = WalRotator::new(store.clone(), c.max).unwrap();
-    let mut file_of = Vec::new();
-    for e in &c.entries {
-        file_of.push(rot.append(e).unwrap());
+    for f in &c.pre {
+        let mut w = store.create(&f.name).unwrap();
+        if !f.bytes.is_empty() {
+            w.append(&f.bytes).unwrap();
+        }
     }
-    (store, rot, file_of)
+    let st = store.clone();
+    let max = c.max;
+    let entries = c.entries.clone();
+    let r = catch_unwind(AssertUnwindSafe(move || {
+        let mut rot = WalRotator::new(st, max).unwrap();
+        let mut file_of = Vec::new();
+        for e in &entries {
+            file_of.push(wal_name(rot.append(e).unwrap()));
+        }
+        (rot, file_of)
+    }));
+    match r {
+        Ok((rot, file_of)) => (store, Some(rot), file_of),
+        Err(_) => (store, None, vec![]),
+    }
 }
 
 fn recover(rot: &WalRotator<InMemoryWalStore>) -> Option<Vec<WalEntry>> {
@@ -273,17 +375,51 @@ impl<'a> Ctx<'a> {
 }
 
 fn run_case(c: &Case, rng: &mut Rng, out: &mut Out, thorough: bool, fixed: Option<&str>) {
+    let ents: Vec<String> = c.entries.iter().map(show_entry).collect();
+    // the directory the rotator starts from
+    let pre_img: Image = {
+        let st = InMemoryWalStore::new();
+        for f in &c.pre {
+            let mut w = st.create(&f.name).unwrap();
+            if !f.bytes.is_empty() {
+                w.append(&f.bytes).unwrap();
+            }
+        }
+        image_of(&st)
+    };
+    out.op(format!("I {}", show_image(&pre_img)), format!("ok {}", pre_img.len()));
     let (store, rot, file_of) = build(c);
     let img = image_of(&store);
-    let cur = if c.entries.is_empty() { "-".to_string() } else { rot.current_sequence().to_string() };
-    let ents: Vec<String> = c.entries.iter().map(show_entry).collect();
+    let case_json = json!({"max_file_size": c.max, "entries": ents,
+        "directory_before": c.pre.iter().map(|f| json!([f.name, hex(&f.bytes)])).collect::<Vec<_>>(),
+        "files": img.iter().map(|(n, b)| json!([n, hex(b)])).collect::<Vec<_>>(), "source": fixed.unwrap_or("generated")});
+    for f in &c.pre {
+        out.count(&format!("pre-file:{}", if let Some(q) = parse_seq(&f.name) {
+            if f.name != wal_name(q) { "alias-of-a-wal-name".to_string() } else if q >= (1u64 << 32) { "wal-seq>=2^32".to_string() } else if q >= 0xffff_fff0 { "wal-seq-near-2^32".to_string() } else { "wal".to_string() }
+        } else { "foreign".to_string() }));
+    }
+    let rot = match rot {
+        Some(r) => r,
+        None => {
+            // `WalRotator::new` + appends over this directory panicked
+            out.op(format!("NA {} {} {}", c.max, c.entries.len(), ents.join(" ")), "crash".into());
+            let top = c.pre.iter().filter_map(|f| parse_seq(&f.name)).max();
+            if top.map(|t| t >= u64::MAX - c.entries.len() as u64).unwrap_or(false) {
+                out.count("observed:rotate-panics-on-sequence-overflow(file with sequence 2^64-1 present)");
+            } else {
+                out.violation("C10:panic:rotator", "WalRotator::new / append panicked", json!({"case": case_json}));
+            }
+            return;
+        }
+    };
+    let cur = if c.entries.is_empty() { "-".to_string() } else { hex(wal_name(rot.current_sequence()).as_bytes()) };
     out.op(
-        format!("B {} {} {}", c.max, c.entries.len(), ents.join(" ")),
-        format!("{} cur={} seq={}", show_image(&img), cur, rot.current_sequence()),
+        format!("NA {} {} {}", c.max, c.entries.len(), ents.join(" ")),
+        format!("{} cur={}", show_image(&img), cur),
     );
     out.op(format!("I {}", show_image(&img)), format!("ok {}", img.len()));
-    let case_json = json!({"max_file_size": c.max, "entries": ents, "files": img.iter().map(|(q, b)| json!([q, hex(b)])).collect::<Vec<_>>(), "source": fixed.unwrap_or("generated")});
-    let canon = format!("{} {}", c.max, ents.join(" "));
+    let wal = wal_files(&img);
+    let canon = format!("{} {} | {}", c.max, ents.join(" "), c.pre.iter().map(|f| format!("{}:{}", f.name, f.bytes.len())).collect::<Vec<_>>().join(","));
     out.case(&canon, c.entries.len() >= 2 && img.len() >= 1);
     out.sample(case_json.clone());
     out.count(&format!("files:{}", img.len().min(5)));
@@ -300,15 +436,24 @@ fn run_case(c: &Case, rng: &mut Rng, out: &mut Out, thorough: bool, fixed: Optio
         }
     }
 
+    let rank_of = |name: &str| wal.iter().find(|w| w.2 == name).map(|w| w.0);
     let mut appended: BTreeMap<u64, Vec<WalEntry>> = BTreeMap::new();
-    for (e, q) in c.entries.iter().zip(&file_of) {
-        appended.entry(*q).or_default().push(e.clone());
+    for f in &c.pre {
+        if let Some(q) = rank_of(&f.name) {
+            // (a pre-existing file that the rotator re-created would be a defect: its entries stay expected)
+            appended.entry(q).or_default().extend(f.entries.iter().cloned());
+        }
     }
-    // what each intact file reads as (real per-file reader)
+    for (e, n) in c.entries.iter().zip(&file_of) {
+        if let Some(q) = rank_of(n) {
+            appended.entry(q).or_default().push(e.clone());
+        }
+    }
+    // what each intact file reads as (real per-file reader); an unreadable one contributes nothing
     let mut intact: BTreeMap<u64, Vec<WalEntry>> = BTreeMap::new();
-    for (q, _) in &img {
-        let r = WalReader::open(store.open_read(&wal_name(*q)).unwrap()).unwrap();
-        intact.insert(*q, r.entries());
+    for (q, _, name, _) in &wal {
+        let es = store.open_read(name).ok().and_then(|r| WalReader::open(r).ok()).map(|r| r.entries()).unwrap_or_default();
+        intact.insert(*q, es);
     }
     // intact recovery
     let rec = recover(&rot);
@@ -319,6 +464,7 @@ fn run_case(c: &Case, rng: &mut Rng, out: &mut Out, thorough: bool, fixed: Optio
         for (q, app) in &appended {
             let good: Vec<&WalEntry> = app.iter().take_while(|e| e.validate() && !(crate::cfg::CODE_WAL_FORMAT >= 2 && e.data.is_empty())).collect();
             let got = &intact[q];
+            if got.is_empty() && !app.is_empty() && wal.iter().find(|w| w.0 == *q).map(|w| w.3.len() < 16).unwrap_or(false) { continue; }
             if !(good.len() == got.len() && good.iter().zip(got.iter()).all(|(a, b)| same(a, b))) {
                 out.violation("C10:intact:mismatch", "an undamaged file did not read back the appended entries", json!({"case": case_json, "file": q}));
             }
@@ -327,20 +473,18 @@ fn run_case(c: &Case, rng: &mut Rng, out: &mut Out, thorough: bool, fixed: Optio
     let mut ctx = Ctx { out, case_json: case_json.clone(), appended, intact };
 
     // every truncation length of every file
-    for (q, bytes) in &img {
-        let name = wal_name(*q);
+    for (q, li, name, bytes) in wal.iter().map(|w| (&w.0, w.1, w.2.clone(), &w.3)) {
         for len in 0..=bytes.len() {
             store.set_file_data(&name, bytes[..len].to_vec());
             let rec = recover(&rot);
-            ctx.out.op(format!("t {} {}", q, len), rec.as_ref().map(|r| show_entries(r)).unwrap_or("crash".into()));
+            ctx.out.op(format!("t {} {}", li, len), rec.as_ref().map(|r| show_entries(r)).unwrap_or("crash".into()));
             ctx.check("truncate", *q, format!("len={}", len), &rec);
             ctx.out.count("damage:truncate");
         }
         store.set_file_data(&name, bytes.clone());
     }
     // bit flips / byte substitutions
-    for (q, bytes) in &img {
-        let name = wal_name(*q);
+    for (q, li, name, bytes) in wal.iter().map(|w| (&w.0, w.1, w.2.clone(), &w.3)) {
         let mut muts: Vec<(usize, u8)> = Vec::new(); // (pos, new value)
         for pos in 0..bytes.len() {
             if thorough {
@@ -373,7 +517,7 @@ fn run_case(c: &Case, rng: &mut Rng, out: &mut Out, thorough: bool, fixed: Optio
             b[pos] = val;
             store.set_file_data(&name, b);
             let rec = recover(&rot);
-            ctx.out.op(format!("x {} {} {}", q, pos, val), rec.as_ref().map(|r| show_entries(r)).unwrap_or("crash".into()));
+            ctx.out.op(format!("x {} {} {}", li, pos, val), rec.as_ref().map(|r| show_entries(r)).unwrap_or("crash".into()));
             let kind = if (bytes[pos] ^ val).count_ones() == 1 { "bitflip" } else { "setbyte" };
             ctx.check(kind, *q, format!("pos={} old={} new={}", pos, bytes[pos], val), &rec);
             ctx.out.count(&format!("damage:{}", kind));
@@ -401,8 +545,7 @@ fn run_case(c: &Case, rng: &mut Rng, out: &mut Out, thorough: bool, fixed: Optio
     // boundary values in every integer field of the file header and of the entry headers, and
     // constant runs (00.. / FF.. / 55.. of 4, 8, 16, 64 bytes) written over / appended after a cut at
     // every field and entry boundary
-    for (q, bytes) in &img {
-        let name = wal_name(*q);
+    for (q, li, name, bytes) in wal.iter().map(|w| (&w.0, w.1, w.2.clone(), &w.3)) {
         // (position, width, is-length-field) of every integer field; entry boundaries
         let mut fields: Vec<(usize, usize, bool)> = vec![(4, 1, false), (5, 1, false), (6, 2, false), (8, 8, false)];
         let mut bounds: Vec<usize> = vec![0, 4, 8, 16];
@@ -439,7 +582,7 @@ fn run_case(c: &Case, rng: &mut Rng, out: &mut Out, thorough: bool, fixed: Optio
                 }
                 store.set_file_data(&name, overwrite(bytes, pos, &w));
                 let rec = recover(&rot);
-                ctx.out.op(format!("w {} {} {}", q, pos, hex(&w)), rec.as_ref().map(|r| show_entries(r)).unwrap_or("crash".into()));
+                ctx.out.op(format!("w {} {} {}", li, pos, hex(&w)), rec.as_ref().map(|r| show_entries(r)).unwrap_or("crash".into()));
                 ctx.check("boundary-value", *q, format!("pos={} width={} value={}", pos, width, v), &rec);
                 ctx.out.count(if is_len { "damage:boundary-value:length-field" } else { "damage:boundary-value:other-field" });
             }
@@ -449,7 +592,7 @@ fn run_case(c: &Case, rng: &mut Rng, out: &mut Out, thorough: bool, fixed: Optio
                 if p < bytes.len() {
                     store.set_file_data(&name, overwrite(bytes, p, &run));
                     let rec = recover(&rot);
-                    ctx.out.op(format!("w {} {} {}", q, p, hex(&run)), rec.as_ref().map(|r| show_entries(r)).unwrap_or("crash".into()));
+                    ctx.out.op(format!("w {} {} {}", li, p, hex(&run)), rec.as_ref().map(|r| show_entries(r)).unwrap_or("crash".into()));
                     ctx.check("constant-run", *q, format!("pos={} run={}x{:02x}", p, run.len(), run[0]), &rec);
                     ctx.out.count(&format!("damage:constant-run:{:02x}", run[0]));
                 }
@@ -459,7 +602,7 @@ fn run_case(c: &Case, rng: &mut Rng, out: &mut Out, thorough: bool, fixed: Optio
                     b.extend_from_slice(&run);
                     store.set_file_data(&name, b);
                     let rec = recover(&rot);
-                    ctx.out.op(format!("ta {} {} {}", q, p, hex(&run)), rec.as_ref().map(|r| show_entries(r)).unwrap_or("crash".into()));
+                    ctx.out.op(format!("ta {} {} {}", li, p, hex(&run)), rec.as_ref().map(|r| show_entries(r)).unwrap_or("crash".into()));
                     ctx.check("cut+constant-tail", *q, format!("cut={} tail={}x{:02x}", p, run.len(), run[0]), &rec);
                     ctx.out.count(&format!("damage:cut+constant-tail:{:02x}", run[0]));
                 }
@@ -468,8 +611,7 @@ fn run_case(c: &Case, rng: &mut Rng, out: &mut Out, thorough: bool, fixed: Optio
         store.set_file_data(&name, bytes.clone());
     }
     // zero-filled / garbage tails
-    for (q, bytes) in &img {
-        let name = wal_name(*q);
+    for (q, li, name, bytes) in wal.iter().map(|w| (&w.0, w.1, w.2.clone(), &w.3)) {
         let mut tails: Vec<Vec<u8>> = vec![vec![0; 16], vec![0; 15], vec![0; 33]];
         if thorough || rng.chance(1, 3) {
             tails.push((0..rng.range(1, 40)).map(|_| rng.below(256) as u8).collect());
@@ -479,7 +621,7 @@ fn run_case(c: &Case, rng: &mut Rng, out: &mut Out, thorough: bool, fixed: Optio
             b.extend_from_slice(&t);
             store.set_file_data(&name, b);
             let rec = recover(&rot);
-            ctx.out.op(format!("a {} {}", q, hex(&t)), rec.as_ref().map(|r| show_entries(r)).unwrap_or("crash".into()));
+            ctx.out.op(format!("a {} {}", li, hex(&t)), rec.as_ref().map(|r| show_entries(r)).unwrap_or("crash".into()));
             let kind = if t.iter().all(|x| *x == 0) { "zerofill" } else { "garbage-tail" };
             if kind == "zerofill" {
                 ctx.check(kind, *q, format!("tail={}", hex(&t)), &rec);
@@ -488,15 +630,15 @@ fn run_case(c: &Case, rng: &mut Rng, out: &mut Out, thorough: bool, fixed: Optio
             }
             ctx.out.count(&format!("damage:{}", kind));
             // recover_entries_after on the zero-filled image
-            if kind == "zerofill" && t.len() >= 16 && c.all_deltas {
-                let bad = bad_payloads(&c.entries);
+            if kind == "zerofill" && t.len() >= 16 && c.all_deltas && c.pre.iter().all(|f| f.entries.is_empty()) {
+                let bad = bad_payloads(c);
                 let r = catch_unwind(AssertUnwindSafe(|| rot.recover_entries_after(0)));
                 let imp = match &r {
                     Err(_) => "crash".to_string(),
                     Ok(Err(_)) => "err".to_string(),
                     Ok(Ok(ds)) => show_keys(ds),
                 };
-                ctx.out.op(format!("Fa {} {} 0 {} {}", q, hex(&t), bad.len(), bad.iter().map(|b| hex(b)).collect::<Vec<_>>().join(" ")), imp);
+                ctx.out.op(format!("Fa {} {} 0 {} {}", li, hex(&t), bad.len(), bad.iter().map(|b| hex(b)).collect::<Vec<_>>().join(" ")), imp);
                 let hidden = ctx.intact.values().map(|v| v.len()).sum::<usize>();
                 if !matches!(r, Ok(Ok(_))) && hidden > 0 {
                     ctx.out.violation(
@@ -512,7 +654,7 @@ fn run_case(c: &Case, rng: &mut Rng, out: &mut Out, thorough: bool, fixed: Optio
     let out = ctx.out;
     // recover_entries_after on the intact image
     {
-        let bad = bad_payloads(&c.entries);
+        let bad = bad_payloads(c);
         let mut ts: Vec<u64> = c.entries.iter().map(|e| e.timestamp).collect();
         ts.push(0);
         ts.sort();
@@ -542,28 +684,32 @@ fn run_case(c: &Case, rng: &mut Rng, out: &mut Out, thorough: bool, fixed: Optio
     ths.dedup();
     for t in ths {
         for restarted in [false, true] {
-            let (st2, mut rot2, _) = build(c);
-            let active: Option<u64> = if restarted || c.entries.is_empty() { None } else { Some(rot2.current_sequence()) };
+            let (st2, rot2, _) = build(c);
+            let mut rot2 = match rot2 {
+                Some(r) => r,
+                None => continue,
+            };
+            let active: Option<String> = if restarted || c.entries.is_empty() { None } else { Some(wal_name(rot2.current_sequence())) };
             if restarted {
                 rot2 = WalRotator::new(st2.clone(), c.max).unwrap();
             }
             let r = catch_unwind(AssertUnwindSafe(|| rot2.truncate_before(t)));
-            let remain: Vec<u64> = image_of(&st2).iter().map(|(q, _)| *q).collect();
+            let remain: Vec<String> = image_of(&st2).iter().map(|(n, _)| n.clone()).collect();
             let imp = match &r {
-                Ok(Ok(d)) => format!("deleted={} remain {}", d, remain.iter().map(|q| q.to_string()).collect::<Vec<_>>().join(" ")),
+                Ok(Ok(d)) => format!("deleted={} remain {}", d, remain.iter().map(|n| hex(n.as_bytes())).collect::<Vec<_>>().join(" ")),
                 Ok(Err(_)) => "err".into(),
                 Err(_) => "crash".into(),
             };
-            out.op(format!("T {} {}", t, active.map(|a| a.to_string()).unwrap_or("-".into())), imp);
+            out.op(format!("T {} {}", t, active.as_ref().map(|a| hex(a.as_bytes())).unwrap_or("-".into())), imp);
             out.count(if restarted { "op:truncate_before:no-active-writer" } else { "op:truncate_before:active-writer" });
             let replay = json!({"case": case_json, "truncate_before": t, "active": active});
             if r.is_err() {
                 out.violation("C10:panic:truncate-before", "truncate_before panicked", replay.clone());
                 continue;
             }
-            if let Some(a) = active {
-                if !remain.contains(&a) {
-                    out.violation("C10:truncate:active-file-removed", "truncate_before removed the active file", replay.clone());
+            if let Some(a) = &active {
+                if !remain.contains(a) {
+                    out.violation("C10:truncate:active-file-removed", &format!("truncate_before({}) removed the file of the open writer ({}); directory listing before: {:?}", t, a, img.iter().map(|(n, _)| n.clone()).collect::<Vec<_>>()), replay.clone());
                 }
             }
             let after = recover(&rot2).unwrap_or_default();
@@ -571,6 +717,11 @@ fn run_case(c: &Case, rng: &mut Rng, out: &mut Out, thorough: bool, fixed: Optio
             let newer_after: Vec<&WalEntry> = after.iter().filter(|e| e.timestamp > t).collect();
             if !(newer_before.len() == newer_after.len() && newer_before.iter().zip(&newer_after).all(|(a, b)| same(a, b))) {
                 out.violation("C10:truncate:newer-entry-lost", "truncate_before(T) removed an entry stamped later than T", replay.clone());
+            }
+            for (n, _) in &img {
+                if parse_seq(n).is_none() && !remain.contains(n) {
+                    out.count("truncate:foreign-file-with-wal-header-deleted");
+                }
             }
             if newer_before.len() < before.len() && remain.len() < img.len() {
                 out.count("truncate:deleted-something");
@@ -589,8 +740,8 @@ fn show_keys(ds: &[ReplicationDelta]) -> String {
 }
 
 /// payloads that `to_delta` rejects (the model's `de` parameter, as a table)
-fn bad_payloads(es: &[WalEntry]) -> Vec<Vec<u8>> {
-    let mut cands: Vec<Vec<u8>> = es.iter().map(|e| e.data.clone()).collect();
+fn bad_payloads(c: &Case) -> Vec<Vec<u8>> {
+    let mut cands: Vec<Vec<u8>> = c.entries.iter().chain(c.pre.iter().flat_map(|f| f.entries.iter())).map(|e| e.data.clone()).collect();
     cands.push(vec![]);
     cands.sort();
     cands.dedup();
@@ -639,11 +790,27 @@ pub fn run(a: &Args) {
             WalEntry::from_delta(&d, t).unwrap()
         };
         // one entry per file (threshold 17): file 1 holds the entry stamped 5, file 2 the one stamped 7
-        let c = Case { max: 17, entries: vec![mk("k", 5), mk("j", 7)], all_deltas: true };
+        let c = Case { max: 17, entries: vec![mk("k", 5), mk("j", 7)], all_deltas: true, pre: vec![] };
         let before = out.oracle.len();
         run_case(&c, &mut rng, &mut out, thorough, Some("corpus:timestamp-flip+zero-fill"));
         // repaired defects (stamp 5 -> 261 flip, zero-filled tail, recover_entries_after on it): must pass
         out.count(if out.oracle.len() == before { "corpus:timestamp-flip+zero-fill:pass" } else { "corpus:timestamp-flip+zero-fill:FAIL" });
+    }
+    // the open writer's file is NOT the last name listed: (1) sequence 2^32 (`wal-100000000.wal` sorts
+    // before the older `wal-ffffffff.wal`), (2) a foreign file `wal-manifest.json` sorts after every WAL
+    // name.  truncate_before must spare the open file whatever the listing order is.
+    {
+        let e = |t: u64| { let data = vec![t as u8, 1]; let checksum = crate::cfg::entry_checksum(t, &data); WalEntry { data, timestamp: t, checksum } };
+        let old = vec![e(1)];
+        let c1 = Case { max: 1 << 20, entries: vec![e(2), e(3)], all_deltas: false,
+            pre: vec![PreFile { name: wal_name(0xffff_ffff), bytes: wal_image(0xffff_ffff, &old), entries: old.clone() }] };
+        let c2 = Case { max: 1 << 20, entries: vec![e(2), e(3)], all_deltas: false,
+            pre: vec![PreFile { name: "wal-manifest.json".into(), bytes: b"{}".to_vec(), entries: vec![] }] };
+        for c in [c1, c2] {
+            let before = out.oracle.len();
+            run_case(&c, &mut rng, &mut out, false, Some("corpus:open-file-is-not-the-last-listed-name"));
+            out.count(if out.oracle.len() == before { "corpus:open-file-not-last-listed:pass" } else { "corpus:open-file-not-last-listed:FAIL" });
+        }
     }
     // all stamp orders of 3 (thorough: also 4) entries x thresholds (one entry per file, two per
     // file, single file)
@@ -664,7 +831,7 @@ pub fn run(a: &Args) {
                         })
                         .collect();
                     out.count("gen:stamp-permutation");
-                    run_case(&Case { max, entries, all_deltas: false }, &mut rng, &mut out, thorough, Some("all-stamp-orders"));
+                    run_case(&Case { max, entries, all_deltas: false, pre: vec![] }, &mut rng, &mut out, thorough, Some("all-stamp-orders"));
                 }
             }
         }
